@@ -4,7 +4,7 @@
 cd /verif
 [ -z "$(git -C /repo status --porcelain --untracked-files=no)" ] || { echo "/repo has local changes"; exit 2; }
 for d in seeded/*/; do
-  id=$(basename $d); prop=$(python3 -c "import json;print(json.load(open('$d/meta.json'))['property'])")
+  id=$(basename $d); prop=$(python3 -c "import json;m=json.load(open('$d/meta.json'));print(m.get('check', m['property']))")   # 'check': the check that decides it when it is not the seeded property's
   [ -n "$1" ] && [ "$1" != "$id" ] && [ "$1" != "$prop" ] && continue
   # patch_rebased.diff: the same change re-expressed on the current tree when a later fix: commit touched the same lines
   pf=/verif/${d}patch.diff; [ -f /verif/${d}patch_rebased.diff ] && pf=/verif/${d}patch_rebased.diff
